@@ -113,34 +113,38 @@ def scribble_check(dsk, order, watch_sources, out_keys):
 
 
 def run_program(chk, da, prog, sources, want, rng):
-    from dask_array import _materialize
-    _materialize._LOWER_CACHE.clear()
     for o in progs.ops_in(prog):
         chk.count("op:" + o)
-    desc = progs.describe(prog, sources)
-    src_copies = [s[0].copy() for s in sources]
+    root = prog[0] if prog[0] != "reduce" else "reduce:" + prog[1]
+    run_collection(chk, lambda: progs.build(prog, da, sources, memo={}), progs.describe(prog, sources),
+                   ("prog", progs.show(prog), repr([(s[0].shape, s[1]) for s in sources])), root, [s[0] for s in sources], rng)
+
+
+def run_collection(chk, mk, desc, case_key, root, watch, rng):
+    """the property for ONE collection built by mk(); `watch` = the user's source arrays"""
+    from dask_array import _materialize
+    _materialize._LOWER_CACHE.clear()
+    src_copies = [w.copy() for w in watch]
     try:
         with warnings.catch_warnings():
             warnings.simplefilter("ignore")
-            arr = progs.build(prog, da, sources, memo={})
+            arr = mk()
             from dask._task_spec import convert_legacy_graph
             dsk = dict(convert_legacy_graph(dict(arr.__dask_graph__())))
             keys = list(flat_keys(arr.__dask_keys__()))
             ref = arr.compute(scheduler="sync")
     except Exception:  # noqa: BLE001
         chk.count("skipped:raises")
-        chk.case(("prog", progs.show(prog)), nontrivial=False)
+        chk.case(case_key[:2], nontrivial=False)
         return
     problems, _ = analyse(dsk, keys)
     if problems:
         chk.count("skipped:graph-not-closed(C04)")
         return
-    chk.case(("prog", progs.show(prog), repr([(s[0].shape, s[1]) for s in sources])), nontrivial=len(dsk) > 2,
+    chk.case(case_key, nontrivial=len(dsk) > 2,
              sample={**desc, "tasks": len(dsk)} if len(dsk) <= 10 else None)
-    watch = [s[0] for s in sources]
     orders = topo_orders(dsk, rng, 5)
     results = []
-    root = prog[0] if prog[0] != "reduce" else "reduce:" + prog[1]
     for oi, order in enumerate(orders):
         chk.count("schedule:serial-order")
         try:
@@ -163,8 +167,9 @@ def run_program(chk, da, prog, sources, want, rng):
         with warnings.catch_warnings():
             warnings.simplefilter("ignore")
             with ThreadPoolExecutor(4) as pool:
-                got = progs.build(prog, da, sources, memo={}).compute(scheduler="threads", pool=pool)
-        ok, why = progs.values_equal(got, ref)
+                got = mk().compute(scheduler="threads", pool=pool)
+        ok, why = (True, "") if isinstance(ref, np.ma.MaskedArray) and np.array_equal(np.ma.getmaskarray(got), np.ma.getmaskarray(ref)) and \
+            np.array_equal(np.ma.getdata(got)[~np.ma.getmaskarray(got)], np.ma.getdata(ref)[~np.ma.getmaskarray(ref)]) else progs.values_equal(got, ref)
         if not ok:
             chk.violation(f"threaded execution differs from serial ({why})", desc, signature={"class": "threads-differ", "root_op": root})
     except Exception as e:  # noqa: BLE001
@@ -178,6 +183,36 @@ def run_program(chk, da, prog, sources, want, rng):
     chk.extra["writable_results_aliasing_sources"] = chk.extra.get("writable_results_aliasing_sources", 0) + len(hz)
 
 
+def masked_assignment_family(chk, da, rng):
+    """assignments whose VALUE (or target) is a masked array: the block kernel of __setitem__ must not write into the block it
+    received (a task never modifies its dependencies)"""
+    for it in range(200 if chk.tier == "thorough" else 30):
+        n, m = rng.choice([6, 9, 12]), rng.choice([3, 4])
+        a = np.arange(float(n * m)).reshape(n, m)
+        chunks = (progs.rand_chunks_for(rng, n), progs.rand_chunks_for(rng, m))
+        kind = rng.choice(["masked-value", "masked-value-into-expr", "masked-target", "np.ma.masked"])
+        lo = rng.randrange(0, n - 2)
+        hi = rng.randrange(lo + 1, n)
+
+        def mk(kind=kind, lo=lo, hi=hi, a=a, chunks=chunks):
+            x = da.from_array(a, chunks=chunks)
+            if kind == "masked-value-into-expr":
+                x = x * 1.0
+            if kind == "masked-target":
+                x = da.ma.masked_greater(x, a.mean())
+            x = x.copy() if hasattr(x, "copy") else x
+            if kind == "np.ma.masked":
+                x[lo:hi] = np.ma.masked
+            else:
+                val = np.ma.masked_array(np.arange(float((hi - lo) * a.shape[1])).reshape(hi - lo, a.shape[1]) + 100,
+                                         mask=(np.arange((hi - lo) * a.shape[1]).reshape(hi - lo, a.shape[1]) % 2 == 0))
+                x[lo:hi] = val
+            return x + 0 if kind != "masked-target" else x
+        chk.count("masked-assignment:" + kind)
+        run_collection(chk, mk, {"program": f"{kind}: x[{lo}:{hi}] = <masked>; x chunks {chunks}"}, ("masked-assignment", kind, it, lo, hi, repr(chunks)),
+                       "setitem-masked", [a], rng)
+
+
 def run(chk: Check):
     import dask_array as da
     chk.rule = ("generated programs (all ops incl. fused tasks, rechunk splits, in-place sliding-window kernels, setitem-free): the real "
@@ -189,6 +224,8 @@ def run(chk: Check):
     for _ in range(200 if chk.tier == "thorough" else 20):
         prog, sources, want = progs.arange_fftfreq(chk.rng)
         run_program(chk, da, prog, sources, want, chk.rng)
+    import random as _random
+    masked_assignment_family(chk, da, _random.Random(f"C10-masked-{chk.seed}"))
     n = 4000 if chk.tier == "thorough" else 200
     for prog, sources, want in progs.gen_programs(chk.rng, n, ops=progs.CORE_OPS + ["swv", "roll", "take", "repeat", "map_overlap"]):
         run_program(chk, da, prog, sources, want, chk.rng)
